@@ -281,6 +281,12 @@ def check_config(ctx, F, tag, text, lists):
     ctx.note("zero byte padding is decided by C06.R2.basic.bytes-body")
     import c05
     c05.check_tail_invariant(ctx, F, tag, prefix="C07.R3.unused-bits-zero")
+    # "a raw bitvector of length n requires floor((n + 63) / 64) elements" and zero unused bits also after pops, growth and
+    # integer writes (borrowed: C05.R3 / R4 / R2)
+    from core import Relabel
+    c05.check_word_count(ctx, F, tag, rule="C07.R3.raw-vector-word-count")
+    c05.check_grow_fill(ctx, F, tag, prefix="C07.R3.raw-vector")
+    c05.check_write_int(Relabel(ctx, {"C07.R3w.value-masked-before-store": "C07.R3.raw-vector-write-stays-in-field"}), F, tag, prefix="C07.R3w")
 
     # ---------------- R4 minimal widths
     need(text, r"`first` must be bit-packed to minimize its width", "first width")
